@@ -69,8 +69,11 @@ type c11Out struct {
 	calls string
 }
 
+var c11Fired int
+
 func resolveExe(z *workload.Zoo, exe *ggql.Executable, op string, vars map[string]interface{}, plan *workload.FaultPlan, noBadLeaf bool) (o c11Out) {
 	tr := &workload.Tracker{Plan: plan, NoBadLeaf: noBadLeaf}
+	defer func() { c11Fired += len(tr.Fired) }()
 	z.SetTracker(tr)
 	defer z.SetTracker(nil)
 	defer func() {
@@ -145,9 +148,10 @@ func (c C11) Run(t *tape.Tape, opt core.RunOpt) (res core.Result) {
 			kind := c06Kinds[t.Draw(len(c06Kinds))]
 			plan = &workload.FaultPlan{FailAt: map[int]string{k: kind}}
 			fdesc = fmt.Sprintf(" fault %s at invocation %d", kind, k)
-			res.Count("fault_resolver_planned", 1)
 		}
+		c11Fired = 0
 		got := resolveExe(z, exe, op, vars, plan, strat == workload.StratReflect)
+		res.Count("fault_resolver_failure_fired", c11Fired)
 		fresh, ferr := z.Root.ParseExecutableString(req.Src)
 		if ferr != nil {
 			res.Fatal = "fresh parse of an accepted document failed: " + ferr.Error()
